@@ -83,6 +83,10 @@ def make_scenarios(ctx, count):
         s = H.Scenario("e%d" % i, meta=dict(frames=frames, own=cfg["mac"], mtu=mtu0, rxseed=cfg["rxseed"], mtu_changes=mtu_changes))
         s.iface(0, **H.iface_kw(cfg)).glob(**G.global_kw(G.rand_global(rng, icon_size=100)))
         s.add("OPT txcap=3000")
+        if i % 3 == 2:
+            # transmitting takes time and the clock moves while the core works: pauses are still waited in full
+            s.add("OPT txcost=%d clocktick=%d" % (rng.choice([1, 4, 30]), rng.choice([0, 1])))
+            s.meta["timed_port"] = True
         shadow = None
         if i % 4 == 1:
             cfg1, fr1 = G.shadow_iface(rng, cfg, max(5, len(frames) // 2))
@@ -106,6 +110,10 @@ def make_session_scenarios(ctx, count):
         s = H.Scenario("es%d" % i, meta=dict(frames=frames, own=cfg["mac"], mtu=mtu, rxseed=cfg["rxseed"]))
         s.iface(0, **H.iface_kw(cfg)).glob(**G.global_kw(G.rand_global(rng, icon_size=100)))
         s.add("OPT txcap=3000")
+        if i % 3 == 2:
+            # transmitting takes time and the clock moves while the core works: pauses are still waited in full
+            s.add("OPT txcost=%d clocktick=%d" % (rng.choice([1, 4, 30]), rng.choice([0, 1])))
+            s.meta["timed_port"] = True
         s.frames(0, frames, rng if i % 2 else None, p_gap=0.25, base=True)
         scns.append(s)
     return scns
